@@ -30,6 +30,10 @@ pub struct Case18 {
     /// compile pool member i with Regex::xsd (a repeated member then has the same text under the other dialect)
     #[serde(default)]
     pub xsd: Vec<bool>,
+    /// this many is_match calls on pool member 0 are put in front of the history (a well-worn object: whatever an
+    /// object switches on after its n-th call must not change an answer)
+    #[serde(default)]
+    pub wear: u16,
 }
 
 const REPS: &[&str] = &["", "x", "[$0]", "$1", "\\$", "$"];
@@ -54,9 +58,18 @@ pub fn build(case: &Case18) -> History {
             pool.push((Dialect::XPath, render(&node, Dialect::XPath), f));
         }
     }
+    // characters outside ASCII and outside the BMP are always available to the haystacks
+    alpha.extend(['é', '𐐀']);
     alpha.sort();
     alpha.dedup();
-    let ops = case
+    let mut ops: Vec<Op> = (0..case.wear as usize)
+        .map(|j| {
+            let n = alpha.len();
+            let input: String = [alpha[j % n], alpha[(j / n) % n], alpha[(j / 7) % n]].iter().take(1 + j % 3).collect();
+            Op::IsMatch { re: 0, input }
+        })
+        .collect();
+    let rest: Vec<Op> = case
         .ops
         .iter()
         .map(|o| {
@@ -83,6 +96,7 @@ pub fn build(case: &Case18) -> History {
             }
         })
         .collect();
+    ops.extend(rest);
     History { pool, ops, shuffle_seed: case.shuffle_seed, threads: 4, thread_reps: 4 }
 }
 
@@ -143,6 +157,9 @@ fn check(case: &Case18, ctx: &mut Ctx) -> Verdict {
     if h.pool.iter().any(|m| m.0 == Dialect::Xsd) {
         ctx.obs.label("pool-mixes-dialects");
     }
+    if case.wear >= 64 {
+        ctx.obs.label("object-used-more-than-64-times");
+    }
     if ho.compile_failed {
         return Verdict::Skip("compile_err");
     }
@@ -187,8 +204,9 @@ impl Prop for C18 {
             prop::collection::vec(op, 10..60),
             any::<u64>(),
             prop::collection::vec(prop::bool::weighted(0.3), 4..=4),
+            prop_oneof![6 => Just(0u16), 1 => Just(70u16), 1 => Just(140u16)],
         )
-            .prop_map(|(nodes, dup, flags, ops, shuffle_seed, xsd)| Case18 { nodes, dup, flags, ops, shuffle_seed, xsd })
+            .prop_map(|(nodes, dup, flags, ops, shuffle_seed, xsd, wear)| Case18 { nodes, dup, flags, ops, shuffle_seed, xsd, wear })
             .boxed();
         vec![Part { name: "histories".into(), strategy: s, cases: tier.pick(20_000, 500_000) }]
     }
@@ -233,13 +251,14 @@ impl Prop for C18 {
         1500
     }
     fn rule(&self) -> String {
-        "evaluation = one API call of a generated history (10-60 operations over a pool of 2-4 regexes: is_match, replace_all, open tokenize / analyze iterators, advance one of the live iterators by 1-3 steps, drop one) executed (2) in order on shared objects with the iterators interleaved, (3) in a seeded shuffled order, (4) from 4 threads x 4 repetitions behind a barrier, each compared with (1) the same call on a freshly compiled Regex; (5) every pool member asked again in the used worker process vs in a brand-new process (process-wide state; members are compiled under both dialects); plus a compile-time assertion crate for Regex: Send + Sync; non-trivial = at some point two iterators were alive on one regex, or two pool members were compiled from the same text; distinct = distinct histories. Threads are real OS threads: a stress, not schedule enumeration".into()
+        "evaluation = one API call of a generated history (10-60 operations, in a quarter of the histories preceded by 70 or 140 is_match calls on the first member, over a pool of 2-4 regexes; haystacks over the patterns' letters plus one non-ASCII and one astral character: is_match, replace_all, open tokenize / analyze iterators, advance one of the live iterators by 1-3 steps, drop one) executed (2) in order on shared objects with the iterators interleaved, (3) in a seeded shuffled order, (4) from 4 threads x 4 repetitions behind a barrier, each compared with (1) the same call on a freshly compiled Regex; (5) every pool member asked again in the used worker process vs in a brand-new process (process-wide state; members are compiled under both dialects); plus a compile-time assertion crate for Regex: Send + Sync; non-trivial = at some point two iterators were alive on one regex, or two pool members were compiled from the same text; distinct = distinct histories. Threads are real OS threads: a stress, not schedule enumeration".into()
     }
     fn guards(&self) -> Vec<Guard> {
         vec![
             Guard { label: "two-live-iterators-on-one-regex".into(), of: "".into(), min_fraction: 0.3 },
             Guard { label: "same-pattern-compiled-twice".into(), of: "".into(), min_fraction: 0.1 },
             Guard { label: "pool-mixes-dialects".into(), of: "".into(), min_fraction: 0.3 },
+            Guard { label: "object-used-more-than-64-times".into(), of: "".into(), min_fraction: 0.1 },
         ]
     }
     fn assumptions(&self) -> Vec<String> {
